@@ -529,6 +529,187 @@ theorem C17_undecodable_domain_invalid (P : Prims) (d : Str) (h : (P.toUnicode (
     have := validDomain_toUnicode_ok P d hv
     simp [dnsToUnicode, h] at this
 
+/-! ## the error branch: one total function of the whole string -/
+
+/-- **C17 (key on the error branch).** Whenever `ForLookup` fails — the address does not split, or the
+domain cannot be normalised (undecodable A-label …) — the key is `strings.ToLower` of the WHOLE
+string as written: the local part is *not* NFC-normalised on this branch, and nothing of the domain
+is dropped. -/
+theorem C17_key_error_branch (P : Prims) (a : Str) (h : (forLookup P a).2 = false) :
+    key P a = P.lower a := by
+  unfold key
+  unfold forLookup at h ⊢
+  split
+  · rename_i he; simp [he] at h
+  · rename_i he
+    simp only [he] at h
+    cases hs : split a with
+    | error e => rfl
+    | ok p =>
+      obtain ⟨m, d⟩ := p
+      simp only [hs] at h ⊢
+      by_cases ed : d.isEmpty = true
+      · simp [ed] at h
+      · simp only [ed] at h ⊢
+        cases hq : dnsForLookup P d with
+        | mk dk ok =>
+          simp only [hq] at h ⊢
+          cases ok with
+          | false => simp
+          | true =>
+            simp at h
+            split at h <;> simp at h
+
+/-- the two ways into the error branch -/
+theorem forLookup_split_error (P : Prims) (a : Str) (e : SplitErr) (h0 : a ≠ []) (h : split a = .error e) :
+    forLookup P a = (P.lower a, false) := by
+  have ea : a.isEmpty = false := by cases a <;> simp_all
+  unfold forLookup; simp [ea, h]
+
+theorem forLookup_domain_error (P : Prims) (a m d : Str) (ha : split a = .ok (m, d)) (hd : d ≠ [])
+    (hf : (dnsForLookup P d).2 = false) : forLookup P a = (P.lower a, false) := by
+  have ha0 : a ≠ [] := by intro h; subst h; simp [split, isPostmaster, postmaster, splitLastAt] at ha
+  have ea : a.isEmpty = false := by cases a <;> simp_all
+  have ed : d.isEmpty = false := by cases d <;> simp_all
+  unfold forLookup
+  cases hq : dnsForLookup P d with
+  | mk dk ok => rw [hq] at hf; simp at hf; subst hf; simp [ea, ha, ed, hq]
+
+/-- **C17 (Equal on the error branch).** When neither address gets a key without error, `Equal` is
+exactly equality of the lower-cased whole strings — the same total function on both sides. -/
+theorem C17_equal_error_branch (P : Prims) (a b : Str)
+    (ha : (forLookup P a).2 = false) (hb : (forLookup P b).2 = false) :
+    equal P a b = true ↔ P.lower a = P.lower b := by
+  rw [C17_equal_iff_key_eq, C17_key_error_branch P a ha, C17_key_error_branch P b hb]
+
+/-- **C17 (no component-wise shortcut).** Two addresses with the SAME undecodable domain whose local
+parts agree after NFC + lower-casing are still not `Equal` when their lower-cased whole strings
+differ (`E` + U+0301 vs U+00C9 in front of `@xn--99999999999.example.org`): comparison follows the
+key, not the components. -/
+theorem C17_equal_error_branch_whole_string (P : Prims) (a b ma mb d : Str)
+    (ha : split a = .ok (ma, d)) (hb : split b = .ok (mb, d)) (hd : d ≠ [])
+    (hf : (dnsForLookup P d).2 = false) (hne : P.lower a ≠ P.lower b) :
+    equal P a b = false := by
+  have h1 := forLookup_domain_error P a ma d ha hd hf
+  have h2 := forLookup_domain_error P b mb d hb hd hf
+  rw [Bool.eq_false_iff]
+  intro he
+  exact hne ((C17_equal_error_branch P a b (by rw [h1]) (by rw [h2])).mp he)
+
+/-- mixed case: one side fails, the other does not — still the keys decide -/
+theorem C17_equal_one_error (P : Prims) (a b : Str) (ha : (forLookup P a).2 = false) :
+    equal P a b = true ↔ P.lower a = key P b := by
+  rw [C17_equal_iff_key_eq, C17_key_error_branch P a ha]
+
+/-- `dns.ForLookup` on its error branch: the lower-cased domain as written. -/
+theorem C17_dns_key_error_branch (P : Prims) (d : Str) (h : (dnsForLookup P d).2 = false) :
+    (dnsForLookup P d).1 = P.lower d := by
+  unfold dnsForLookup at h ⊢
+  cases hq : dnsToUnicode P d with
+  | mk u ok =>
+    simp only [hq] at h ⊢
+    cases ok with
+    | false => simp
+    | true => simp at h
+
+/-! ## IsASCII on bytes (Go strings are byte strings) -/
+
+theorem decodeOne_ascii (b : Nat) (r : List Nat) (h : b < 128) : decodeOne (b :: r) = (b, 1) := by
+  simp [decodeOne, h]
+
+theorem decodeOne_nonascii (b : Nat) (r : List Nat) (h : ¬ b < 128) : 128 ≤ (decodeOne (b :: r)).1 := by
+  unfold decodeOne
+  simp only [h, ↓reduceIte]
+  repeat' split
+  all_goals simp_all
+  all_goals omega
+
+theorem isASCII_decodeFuel (n : Nat) (bs : List Nat) (h : bs.length ≤ n) :
+    isASCII (decodeFuel n bs) = bs.all (fun b => b < 128) := by
+  induction n generalizing bs with
+  | zero =>
+    have : bs = [] := by cases bs <;> simp_all
+    subst this; simp [decodeFuel, isASCII]
+  | succ n ih =>
+    cases bs with
+    | nil => simp [decodeFuel, isASCII]
+    | cons b r =>
+      by_cases hb : b < 128
+      · simp only [decodeFuel, decodeOne_ascii b r hb]
+        have hl : r.length ≤ n := by simp at h; omega
+        have := ih r hl
+        simp only [isASCII] at this ⊢
+        simp [this, hb]
+      · have h1 := decodeOne_nonascii b r hb
+        simp only [decodeFuel, isASCII, List.all_cons]
+        have : decide ((decodeOne (b :: r)).1 < 128) = false := by simp; omega
+        simp [this, hb]
+
+/-- **C17 (IsASCII, byte level).** For EVERY byte string — well-formed UTF-8 or not — decoding it the
+way Go's `range` does and testing the code points (what `address.IsASCII` does) is the same as testing
+the bytes: `IsASCII(s)` ⇔ every byte of `s` is below 0x80.  An invalid byte decodes to U+FFFD, which
+is not ASCII; counting runes against bytes would not see it. -/
+theorem C17_isASCII_bytes (bs : List Nat) : isASCIIBytes bs = bs.all (fun b => b < 128) := by
+  unfold isASCIIBytes decodeUtf8
+  exact isASCII_decodeFuel bs.length bs (Nat.le_refl _)
+
+theorem C17_isASCII_bytes_iff (bs : List Nat) : isASCIIBytes bs = true ↔ ∀ b ∈ bs, b < 128 := by
+  rw [C17_isASCII_bytes]; simp
+
+theorem decodeFuel_ascii (n : Nat) (bs : List Nat) (h : bs.length ≤ n) (ha : ∀ b ∈ bs, b < 128) :
+    decodeFuel n bs = bs := by
+  induction n generalizing bs with
+  | zero =>
+    have : bs = [] := by cases bs <;> simp_all
+    subst this; simp [decodeFuel]
+  | succ n ih =>
+    cases bs with
+    | nil => simp [decodeFuel]
+    | cons b r =>
+      have hb : b < 128 := ha b (by simp)
+      simp only [decodeFuel, decodeOne_ascii b r hb]
+      have hl : r.length ≤ n := by simp at h; omega
+      simp [ih r hl (fun x hx => ha x (by simp [hx]))]
+
+/-- ASCII byte strings decode to themselves. -/
+theorem C17_decode_ascii (bs : List Nat) (ha : ∀ b ∈ bs, b < 128) : decodeUtf8 bs = bs :=
+  decodeFuel_ascii bs.length bs (Nat.le_refl _) ha
+
+/-- **C17 (ToASCII result is ASCII).** When `ToASCII` succeeds its result is ASCII, given that the
+IDNA primitive returns ASCII on success (sampled on the real library): a non-ASCII local part —
+invalid bytes included, by `C17_isASCII_bytes` — is refused. -/
+theorem C17_toASCII_ok_is_ascii (P : Prims) (a : Str)
+    (law : ∀ d, (P.toASCII d).2 = true → isASCII (P.toASCII d).1 = true)
+    (h : (toASCII P a).2 = true) : isASCII (toASCII P a).1 = true := by
+  unfold toASCII at h ⊢
+  cases hs : split a with
+  | error e => simp [hs] at h
+  | ok p =>
+    obtain ⟨m, d⟩ := p
+    simp only [hs] at h ⊢
+    by_cases hm : isASCII m = true
+    · simp only [hm, Bool.not_true, Bool.false_eq_true, ↓reduceIte] at h ⊢
+      by_cases ed : d.isEmpty = true
+      · simp [ed, hm]
+      · simp only [ed, Bool.false_eq_true, ↓reduceIte] at h ⊢
+        have hl := law d
+        cases hq : P.toASCII d with
+        | mk ad ok =>
+          rw [hq] at hl
+          simp only [hq] at h ⊢
+          cases ok with
+          | false => simp at h
+          | true =>
+            have := hl rfl
+            simp only [isASCII] at this hm ⊢
+            simp [this, hm, AT]
+    · simp [hm] at h
+
+/-- … and it refuses every address whose local part is not ASCII. -/
+theorem C17_toASCII_refuses_non_ascii_local (P : Prims) (a m d : Str) (ha : split a = .ok (m, d))
+    (hm : isASCII m = false) : toASCII P a = (a, false) := by
+  unfold toASCII; simp [ha, hm]
+
 /-! ## Non-vacuity -/
 
 /-- An ASCII-only instance of the primitives (identity NFC, ASCII lower-casing, no punycode). -/
@@ -562,5 +743,47 @@ example : key asciiPrims (0x3000 :: ex2) ≠ key asciiPrims ex2 :=
     (ex2.drop 4) (ex2.drop 4) (by rfl) (by rfl) (by decide) (by decide) (by decide) (by decide) (by decide) (by decide)
     (by decide) (by decide) (Or.inl (by decide))).1
 example : key asciiPrims ([34, 60, 0x338, 34] ++ ex2.drop 3) = [34, 60, 0x338, 34] ++ ex2.drop 3 := by decide
+
+/-- primitives with a non-trivial NFC (`E` + U+0301 → U+00C9) and an IDNA decoder that refuses labels
+starting with `xn--9` -/
+def nfcPrims : Prims where
+  nfc := fun s =>
+    let rec go : Str → Str
+      | 69 :: 0x301 :: r => 0xC9 :: go r
+      | c :: r => c :: go r
+      | [] => []
+    go s
+  lower := fun s => s.map (fun c => if 65 ≤ c ∧ c ≤ 90 then c + 32 else if c == 0xC9 then 0xE9 else c)
+  toUnicode := fun s => (s, !(s.take 5 == [120, 110, 45, 45, 57]))
+  toASCII := fun s => (s, true)
+
+-- "xn--9.org"
+def badDom : Str := [120, 110, 45, 45, 57, 46, 111, 114, 103]
+/-- `E`+U+0301 `@xn--9.org` vs U+00C9 `@xn--9.org`: same undecodable domain, canonically equivalent
+local parts, but different keys and not Equal (the error branch lower-cases the whole string only);
+in front of a decodable domain the same two local parts ARE Equal -/
+example : (forLookup nfcPrims ([69, 0x301, 64] ++ badDom)).2 = false ∧
+    key nfcPrims ([69, 0x301, 64] ++ badDom) ≠ key nfcPrims ([0xC9, 64] ++ badDom) ∧
+    equal nfcPrims ([69, 0x301, 64] ++ badDom) ([0xC9, 64] ++ badDom) = false ∧
+    equal nfcPrims ([69, 0x301, 64] ++ ex2.drop 4) ([0xC9, 64] ++ ex2.drop 4) = true := by decide
+example : equal nfcPrims ([69, 0x301, 64] ++ badDom) ([0xC9, 64] ++ badDom) = false :=
+  C17_equal_error_branch_whole_string nfcPrims _ _ [69, 0x301] [0xC9] badDom (by rfl) (by rfl) (by decide)
+    (by decide) (by decide)
+/-- byte level: Latin-1 `caf\xe9`, a lone continuation byte, an overlong NUL, a surrogate, a truncated
+sequence all decode with U+FFFD and are not ASCII; well-formed `é` decodes to U+00E9 -/
+example : decodeUtf8 [0x63, 0x61, 0x66, 0xE9] = [0x63, 0x61, 0x66, 0xFFFD] ∧ isASCIIBytes [0x63, 0x61, 0x66, 0xE9] = false ∧
+    decodeUtf8 [0x80] = [0xFFFD] ∧ decodeUtf8 [0xC0, 0x80] = [0xFFFD, 0xFFFD] ∧
+    decodeUtf8 [0xED, 0xA0, 0x80] = [0xFFFD, 0xFFFD, 0xFFFD] ∧ decodeUtf8 [0x74, 0xD1] = [0x74, 0xFFFD] ∧
+    decodeUtf8 [0xC3, 0xA9, 0x40] = [0xE9, 0x40] ∧ decodeUtf8 [0xF0, 0x9F, 0x98, 0x80] = [0x1F600] ∧
+    decodeUtf8 [0xE2, 0x82, 0xAC, 0xE2, 0x82] = [0x20AC, 0xFFFD, 0xFFFD] ∧ decodeUtf8 [0xF4, 0x90, 0x80, 0x80] = [0xFFFD, 0xFFFD, 0xFFFD, 0xFFFD] := by
+  decide
+/-- `ToASCII("caf\xe9@example.org")` is refused -/
+example : toASCII asciiPrims (decodeUtf8 [0x63, 0x61, 0x66, 0xE9] ++ ex2.drop 3) = (decodeUtf8 [0x63, 0x61, 0x66, 0xE9] ++ ex2.drop 3, false) := by
+  decide
+/-- the law of `C17_toASCII_ok_is_ascii` is satisfiable (an IDNA primitive that refuses what it cannot
+make ASCII), and the theorem applies to a successful conversion -/
+def strictPrims : Prims := { asciiPrims with toASCII := fun s => (s, s.all (fun c => c < 128)) }
+example : isASCII (toASCII strictPrims ex1).1 = true ∧ (toASCII strictPrims ex1).2 = true :=
+  ⟨C17_toASCII_ok_is_ascii strictPrims ex1 (by intro d h; simpa [strictPrims, isASCII] using h) (by decide), by decide⟩
 
 end MaddyVerif.C17
